@@ -221,7 +221,8 @@ def send_update_message(peer_ip):
                             'code': 'unexpected extended community "%s", please check your post data' % key
                         })
             attr[16] = ext_community
-    if cfg.CONF.bgp.rib:
+    if cfg.CONF.bgp.rib and ((attr and nlri) or withdraw):
+        # only what is going to be sent is recorded in the Adj-RIB-Out
         result = api_utils.save_send_ipv4_policies(
             msg={
                 'attr': attr,
